@@ -151,6 +151,10 @@ func init() {
 				// the answer arrives as fast as causality allows: right after the request was written, while Start is still running
 				{Threads: [][]cliEv{nil, {ev("start", 0)}, {ev("resp", 0)}}, Epilogue: "drain+close", Opts: cliOpts{Fallback: true, NoRetransmit: true}},
 				{Threads: [][]cliEv{nil, {ev("do", 0)}, {ev("resp", 0)}, {ev("start", 1)}}, Epilogue: "drain+close", Opts: cliOpts{Fallback: true}},
+				// responses that arrive while Close is under way (between its first step and the agent's closing): each
+				// transaction gets its response or ErrClientClosed, and a response that gets through is handed over as such
+				{Setup: []cliEv{ev("start", 0), ev("start", 1)}, Threads: [][]cliEv{nil, {{K: "close"}}, {ev("resp", 1), ev("resp", 0)}}, Epilogue: "drain+close", Opts: cliOpts{Fallback: true}},
+				{Setup: []cliEv{ev("start", 0)}, Threads: [][]cliEv{nil, {{K: "close"}}, {ev("resp", 0)}, {ev("start", 1), ev("resp", 1)}}, Epilogue: "drain+close", Opts: cliOpts{Fallback: true, PoolFanout: true}},
 			} {
 				cliExplore(c, "C12", sc, pb, true, fmt.Sprintf("S%d", i+1))
 			}
